@@ -176,6 +176,11 @@ def ob_batched_send(run, oid):
             if last in ("index", "get", "get_unchecked"):
                 off = ts[1] if len(ts) > 1 else None
                 okk = off is not None and K.mentions(off, lambda x: x[0] == "upvar") and K.mentions(off, lambda x: x[0] == "param")
+                po = K.peel(off) if off is not None else None
+                if not okk and isinstance(po, tuple) and po and po[0] == "agg" and str(po[1]).endswith(("ops::range::Range", "ops::range::RangeFrom")):
+                    # `addrs[sent..sent + n]`: a sub-slice that starts at the progress counter (a local the loop keeps advancing, or a captured one)
+                    st = K.peel(dict(po[3]).get("start"))
+                    okk = isinstance(st, tuple) and st and ((st[0] == "local" and len(b.defs().get(st[1], [])) > 1) or st[0] == "upvar")
                 uses.append((c, okk, "indexed at " + mir.show(off)[:60]))
             elif last in ("iter", "into_iter", "as_slice", "deref"):
                 # an iterator over the list: must be advanced by the progress counter (skip / slice from offset)
